@@ -67,6 +67,16 @@ CLAIMED = {
               'quick) because 64-bit division by 86400 stalls the SAT back ends; SMT back ends crash on these units'),
         technique='CBMC bounded model checking with one assume-guarantee contract (dt_tadd_s)',
         design='3/C11'),
+    'C14': dict(
+        text=('Bounded model checking over the real generated leap-second table: table rows consistent with each '
+              'other and with leap-seconds.list; the bisection returns the last entry strictly before the key for '
+              'every 32-bit key (three columns); TAI-UTC/GPS-UTC and the virtual zones for every instant from 1900 '
+              'to 2^40; monotonicity on every ordered pair; dt_dtadd of -5..5 real seconds started within 3 s of '
+              'every listed leap second lands exactly N SI seconds later and shows :60 only on inserted seconds.'),
+        note=('leap-seconds.list parsed by the runner is ground truth; ltrcc not encoded (its output is); '
+              'ddiff %rS printing path is covered in C06; two defects found and fixed (bisection, 2038 truncation)'),
+        technique='CBMC bounded model checking of lib/leaps.c, lib/tzraw.c offsets and dt_dtadd(tai) over the real table',
+        design='3/C14'),
 }
 
 NA = {}
